@@ -403,12 +403,23 @@ def run(ctx):
             if x[0] == "param" and x[1] == init.qual:
                 used.add(x[2])
         # `1 if private else None`: the option decides through the test of a conditional expression
-        for ie in [x for x in ast.walk(value_expr) if isinstance(x, ast.IfExp)]:
-            for nm in ast.walk(ie.test):
-                if isinstance(nm, ast.Name):
-                    for y in walk_terms(flow.term(nm, F)):
-                        if y[0] == "param" and y[1] == init.qual:
-                            used.add(y[2])
+        def _through_locals(e, depth=0):
+            # e, and what the locals it reads were given (`t = 1 if private else None; ... = t`)
+            out_ = [e]
+            if depth < 3:
+                for nm_ in ast.walk(e):
+                    if isinstance(nm_, ast.Name) and isinstance(nm_.ctx, ast.Load):
+                        bl_ = ctx.res.bindings(F).get(nm_.id, [])
+                        if len(bl_) == 1 and bl_[0][0] == "value" and isinstance(bl_[0][1], ast.AST):
+                            out_ += _through_locals(bl_[0][1], depth + 1)
+            return out_
+        for ve in _through_locals(value_expr):
+            for ie in [x for x in ast.walk(ve) if isinstance(x, ast.IfExp)]:
+                for nm in ast.walk(ie.test):
+                    if isinstance(nm, ast.Name):
+                        for y in walk_terms(flow.term(nm, F)):
+                            if y[0] == "param" and y[1] == init.qual:
+                                used.add(y[2])
         node = C.stmt_node(ctx, F, n)
         for b, lab in g.control_deps(node, normal_only=True):
             te = C.test_expr(b)
@@ -424,6 +435,16 @@ def run(ctx):
                         continue
                     if isinstance(nm, ast.Name) and F is init and nm.id in params:
                         used.add(nm.id)
+                    if isinstance(nm, ast.Name) and F is init and nm.id not in params:
+                        # a local of the constructor in the guard: what it was given
+                        for ve in _through_locals(nm):
+                            for y in walk_terms(flow.term(ve, F)):
+                                if y[0] == "param" and y[1] == init.qual:
+                                    used.add(y[2])
+                            for ie in [x for x in ast.walk(ve) if isinstance(x, ast.IfExp)]:
+                                for nm2 in ast.walk(ie.test):
+                                    if isinstance(nm2, ast.Name) and nm2.id in params:
+                                        used.add(nm2.id)
                     if (isinstance(nm, ast.Attribute) and isinstance(nm.value, ast.Name) and nm.value.id == F.self_name) or (isinstance(nm, ast.Name) and F is not init):
                         for y in walk_terms(flow.term(nm, F)):
                             if y[0] == "param" and y[1] == init.qual:
